@@ -158,7 +158,7 @@ func c33Case(rt *rapid.T, rec *vstat.Rec) {
 	})
 
 	// ---- shutdown
-	if err := s.Barrier(); err != nil {
+	if err := g8aBarrier(s, 20*time.Second); err != nil {
 		rec.Label("infra:barrier")
 		return
 	}
